@@ -12,7 +12,9 @@
 (*                            one token at the top of the loop with the    *)
 (*                            loop state BEFORE it is processed, what      *)
 (*                            sanitizeAttrs returned and what was written  *)
-(*   ret    c, err, final loop state                                       *)
+(*                            (werr: the last of them failed)              *)
+(*   ret    c, err, rerr, final loop state   (rerr: the source reader was  *)
+(*                            scripted to fail with a non-EOF error)       *)
 (* Every event is fully logged, so the trace specification never branches. *)
 (* A line the specification cannot take is recorded in `div` and the trace *)
 (* is re-synchronised at the end of that call / session, so that the rest  *)
@@ -33,8 +35,9 @@ CONSTANT CheckAttrs
 
 VARIABLES l,      \* next line of Tr
           div,    \* lines at which the real code left the specification
-          pols    \* the live policies of the session: policy id -> policy
-tvars == <<pol, st, inp, out, l, div, pols>>
+          pols,   \* the live policies of the session: policy id -> policy
+          wfail   \* a destination write of the current call has failed
+tvars == <<pol, st, inp, out, l, div, pols, wfail>>
 
 StOf(e) == [skip |-> e.skip, cnt |-> e.cnt, stack |-> e.stack, mrst |-> e.mrst]
 
@@ -48,14 +51,14 @@ Resync(i) == IF i > Len(Tr) THEN i
              ELSE IF Tr[i].ev \in {"call", "reset", "build"} THEN i
              ELSE Resync(i + 1)
 
-TraceInit == pol = Blank /\ st = St0 /\ inp = <<>> /\ out = <<>> /\ l = 1 /\ div = <<>> /\ pols = <<>>
+TraceInit == pol = Blank /\ st = St0 /\ inp = <<>> /\ out = <<>> /\ l = 1 /\ div = <<>> /\ pols = <<>> /\ wfail = FALSE
 
 Diverge == /\ div' = Append(div, l)
            /\ l' = Resync(l + 1)
-           /\ UNCHANGED <<pol, st, inp, out, pols>>
+           /\ UNCHANGED <<pol, st, inp, out, pols>> /\ wfail' = FALSE
 
 OnReset(e) == /\ pol' = Blank /\ st' = St0 /\ inp' = <<>> /\ out' = <<>> /\ pols' = <<>>
-              /\ l' = l + 1 /\ UNCHANGED div
+              /\ l' = l + 1 /\ UNCHANGED div /\ wfail' = FALSE
 
 \* a builder call on policy e.pid returned; e.snap is its snapshot, e.others the snapshots of the other
 \* live policies of the session (which the call must not have touched)
@@ -66,16 +69,17 @@ OnBuild(e) ==
       othersOK == \A k \in DOMAIN e.others : e.others[k].pid \in DOMAIN pols /\ PolOfJson(e.others[k].snap) = pols[e.others[k].pid]
   IN  /\ pols' = Put(pols, e.pid, real)          \* on a mismatch continue with the real policy
       /\ div' = IF p2 = real /\ othersOK THEN div ELSE Append(div, l)
-      /\ l' = l + 1 /\ UNCHANGED <<pol, st, inp, out>>
+      /\ l' = l + 1 /\ UNCHANGED <<pol, st, inp, out, wfail>>
 
 OnCall(e) == /\ pol' = InitP(pols[e.pid]) /\ pols' = Put(pols, e.pid, InitP(pols[e.pid]))
              /\ st' = St0 /\ inp' = <<>> /\ out' = <<>>
-             /\ l' = l + 1 /\ UNCHANGED div
+             /\ l' = l + 1 /\ UNCHANGED div /\ wfail' = FALSE
 
 TokGood(e) ==
   LET after == IF e.called THEN e.after ELSE <<>>
       b     == Branch(pol, st, e.tok, after)
   IN  /\ st = StOf(e)
+      /\ ~wfail                                   \* after a failed write the loop has returned: no further token
       /\ e.called = (e.tok.t \in {"start", "self"} /\ e.tok.a # <<>> /\ ~Blocked(pol, e.tok.n) /\ Known(pol, e.tok.n))
       /\ WritesMatch(e.writes, EmitB(pol, e.tok, after, b))
       /\ (CheckAttrs /\ e.called) => SanitizeAttrs(pol, e.tok.n, e.tok.a) = e.after
@@ -87,12 +91,14 @@ OnTok(e) ==
        IN  /\ st' = StepB(pol, st, e.tok, b)
            /\ inp' = Append(inp, e.tok)
            /\ out' = out \o EmitB(pol, e.tok, after, b)
+           /\ wfail' = e.werr                   \* the last write of this step failed (BM_IO: status "werr")
            /\ l' = l + 1 /\ UNCHANGED <<pol, div, pols>>
   ELSE Diverge
 
 OnRet(e) ==
-  IF st = StOf(e) /\ ~e.panic /\ e.ended /\ ~e.err
-  THEN l' = l + 1 /\ UNCHANGED <<pol, st, inp, out, div, pols>>
+  \* the call reports an error exactly when a write failed or the source failed (BM_IO: FailReported)
+  IF st = StOf(e) /\ ~e.panic /\ e.ended /\ (e.err = (wfail \/ e.rerr))
+  THEN l' = l + 1 /\ UNCHANGED <<pol, st, inp, out, div, pols, wfail>>
   ELSE Diverge
 
 TraceNext ==
